@@ -566,6 +566,27 @@ def BasisObj.getitem (b : BasisObj) (ix : Index) : Except Err BasisObj :=
 /-- `b.coefficients = …` (a plain attribute). -/
 def BasisObj.setCoef (b : BasisObj) (rows : List Nat) (width : Nat) : BasisObj := { b with rows := rows, width := width }
 
+/-! ### `DenseArgvals.normalization`: the numeric content of a *computed* `argvals_stand`
+
+`(points − min(points)) / (max(points) − min(points))`, point by point: the grid may contain repeated
+points and need not be sorted.  `none`: all points equal (the code divides 0 by 0). -/
+
+def pickMin (acc x : Rat) : Rat := if x < acc then x else acc
+def pickMax (acc x : Rat) : Rat := if acc < x then x else acc
+
+def listMin : List Rat → Option Rat
+  | [] => none
+  | a :: t => some (t.foldl pickMin a)
+
+def listMax : List Rat → Option Rat
+  | [] => none
+  | a :: t => some (t.foldl pickMax a)
+
+def normalizeGrid (t : List Rat) : Option (List Rat) :=
+  match listMin t, listMax t with
+  | some lo, some hi => if hi = lo then none else some (t.map fun x => (x - lo) / (hi - lo))
+  | _, _ => none
+
 /-! ### Observers of a state -/
 
 def State.nObs : State → Option Nat
